@@ -405,6 +405,20 @@ def run(pid, tier, seed, rundir, model_run):
                 bg = H.frame(H.req_get(hot))
                 clients = [[put_cur(cs_[0])], [{"kind": "get", "path": hot, "pieces": [bg], "bytes": bg, "desc": f"get {hot}"}], [put_cur(cs_[1 % len(cs_)], "./" + hot.replace("/", "//"))]]      # the second writer spells the same file differently
                 nclients = 3
+            list_then_get = (gi == 5)
+            if list_then_get:
+                # ONE session lists the hub and later fetches a file; another server commits a new version of that file — of the
+                # SAME LENGTH, in the same second — in between (every placement of the writer's whole request inside the reader's
+                # call sequence). Whatever the session remembers from its List (hashes keyed by size and mtime), the Get's
+                # announced hash must be the hash of the bytes it streams.
+                tree = {"f": b"0041\n"}
+                ch_ = bytes.fromhex(blake3_hex([tree["f"]])[0]); c_ = b"0042\n"; h_ = bytes.fromhex(blake3_hex([c_])[0])
+                b_ = H.frame(H.req_put("f", ch_, len(c_), h_)) + c_
+                bl = H.frame(H.req_list()); bg = H.frame(H.req_get("f"))
+                clients = [[{"kind": "list", "path": "", "pieces": [bl], "bytes": bl, "desc": "list"},
+                            {"kind": "get", "path": "f", "pieces": [bg], "bytes": bg, "desc": "get f"}],
+                           [{"kind": "put", "path": "f", "content": c_, "variant": "ok", "pieces": [b_], "exp": ch_, "hash": h_, "bytes": b_, "desc": f"put f {len(c_)}B exp=cur ok in 1 piece(s)"}]]
+                nclients = 2
             # make them collide: most requests of a configuration address the same path
             allowed = set(tree.values()) | {op["content"] for cl in clients for op in cl if op["kind"] == "put" and op["variant"] == "ok"}
             # schedules for this configuration, decided as we go: first every sequential order (which also tells how
@@ -429,7 +443,7 @@ def run(pid, tier, seed, rundir, model_run):
                                 one.append([(a, k)] + [(c, 99) for c in order] + [(a, 99)])
                     if tier != "thorough" and len(one) > nsched * 2:
                         one = [one[i] for i in sorted({rng.below(len(one)) for _ in range(nsched * 2)})]
-                    if list_vs_commits:
+                    if list_vs_commits or list_then_get:
                         for k1 in range(1, max(2, lens.get(0, 10)) + 1):
                             one.append([(0, k1), (1, 99), (0, 99)])
                     if third_party:
